@@ -5,6 +5,7 @@ import z3
 from vf.runner import Ob
 from vf import symx, shims, oracle, meshgen
 from vf.kernelsmt import Kernel, Refused, Result, prove
+from vf.props import c08
 
 ID = "C17"
 ENGINE = "symx+kernelsmt"
@@ -277,6 +278,81 @@ def storage(names):
     return h
 
 
+def _nested_triangle():
+    """a triangle with corners 0, 2, 9 and seven interior vertices (successive 1-to-3 splits): a disk whose three border
+    vertices do not come in ascending order out of a set ([0, 9, 2])"""
+    faces = [(0, 2, 9)]
+    for v in (1, 3, 4, 5, 6, 7, 8):
+        a, b, c = faces.pop(0)
+        faces += [(a, b, v), (b, c, v), (c, a, v)]
+    return 10, faces
+
+
+def custom_storage(sx):
+    """custom border: the i-th given position goes to the i-th entry of mesh.boundary_vertices (the documented pairing), interior
+    vertices receive this run's solution; symbolic relabelling, storage kind and solution values"""
+    from vf.props.c05 import _install
+    import mouette.processing.parametrization.tutte as TT
+    undo = _install(sx)
+    try:
+        which = sx.choice("mesh", 2)
+        if which == 0:
+            V, faces = _nested_triangle()
+        else:
+            V, faces, _ = MESHES["fan4"]
+        p, q = sx.choice("swap_a", V), sx.choice("swap_b", V)
+        perm = list(range(V))
+        perm[p], perm[q] = perm[q], perm[p]
+        faces = [tuple(perm[v] for v in F) for F in faces]
+        corners = sx.flag("save_on_corners")
+        mesh = meshgen.build(meshgen.generic_coords(V), (), faces)
+        bnd = [int(v) for v in mesh.boundary_vertices]
+        interior = [int(v) for v in mesh.interior_vertices]
+        # (positions are concrete and pairwise different: they are multiplied into a compiled scipy sparse product on the way)
+        pos = [[float(np.cos(0.3 + 2 * np.pi * i / len(bnd))) * (1 + 0.1 * i), float(np.sin(0.3 + 2 * np.pi * i / len(bnd)))] for i in range(len(bnd))]
+        sols = [[sx.real("sol%d_%d" % (c, i)) for i in range(len(interior))] for c in range(2)]
+        custom = np.zeros((len(bnd), 2))
+        for i in range(len(bnd)):
+            for k in range(2):
+                custom[i, k] = pos[i][k]
+
+        class Solve:
+            calls = 0
+
+            def spsolve(self, A, b):
+                out = np.empty(len(interior), dtype=object) if sx.symbolic else np.zeros(len(interior))
+                for i, x in enumerate(sols[Solve.calls % 2]):
+                    out[i] = x
+                Solve.calls += 1
+                return out
+        tag = " [custom boundary, %s]" % ("nested triangle" if which == 0 else "fan4")
+        names = dict(linalg=Solve())
+        try:
+            with shims.rebound(TT, **names):
+                t = TT.TutteEmbedding(mesh, use_cotan=False, save_on_corners=corners, custom_boundary=custom)
+                t.run()
+        except Exception as e:
+            sx.check(False, "Tutte embedding with a custom boundary raised on a disk" + tag, detail=repr(e))
+            return
+
+        def uv_of(v):
+            if corners:
+                cs = mesh.connectivity.vertex_to_corners(v)
+                return [[t.uvs[c][k] for k in range(2)] for c in cs]
+            return [[t.uvs[v][k] for k in range(2)]]
+        for i, v in enumerate(bnd):
+            for got in uv_of(v):
+                for k in range(2):
+                    sx.check_eq(got[k], pos[i][k], "the i-th custom position is given to the i-th border vertex (order of mesh.boundary_vertices)" + tag,
+                                tol=1e-12, detail="border vertices %s" % bnd)
+        for i, v in enumerate(interior):
+            for got in uv_of(v):
+                for k in range(2):
+                    sx.check_eq(got[k], sols[k][i], "interior vertices receive the solution of this run's linear system" + tag, tol=1e-12)
+    finally:
+        undo()
+
+
 def obligations(tier):
     q = tier == "quick"
     disks = ["tri1", "tri2", "tri3", "fan4"] + ([] if q else ["grid3"])
@@ -284,6 +360,11 @@ def obligations(tier):
         Ob("square-placement-e2", square_e2, covers=COVERS, note="kernelsmt: square border placement for every border length"),
         Ob("circle-placement", circle_e1, covers=COVERS, note="circle border placement, n in [3,12]"),
         Ob("gate", gate(disks + ["sphere", "annulus", "punctured-torus"]), covers=COVERS, split=3, note="Euler-characteristic gate"),
+        Ob("custom-storage", custom_storage, covers=COVERS, split=3, note="custom border positions reach the border vertices they are given for"),
+        Ob("system-matrix-tri2", c08.laplacians("tri2"), covers=COVERS + ["mouette.operators.laplacian_op:laplacian"],
+           note="the matrix handed to the linear solve is the uniform / cotangent Laplacian (free symbolic cotangents; shared with C08)"),
+        Ob("system-matrix-fan3", c08.laplacians("fan3"), covers=COVERS + ["mouette.operators.laplacian_op:laplacian"],
+           note="same, closed 3-fan (interior vertex)"),
         Ob("storage", storage(["tri2", "fan4"] + ([] if q else ["grid3"])), covers=COVERS, split=3,
            note="per-vertex vs per-corner storage with the sparse solve stubbed"),
     ]
